@@ -246,4 +246,55 @@ theorem byName_anti {π : Type} {l : List (String × π)} (nd : (l.map (·.1)).N
   have hk : a.1 = b.1 := String.le_antisymm h1 h2
   exact eq_of_nodup_map (·.1) nd a ha b hb hk
 
+/-! ### GetLangQuotes -/
+
+theorem langStep_foldl_some {ν : Type} (lang : String) (v : ν) (l : List (String × ν)) :
+    l.foldl (langStep lang) (some v) = some v := by
+  induction l with
+  | nil => rfl
+  | cons x l ih => simpa [List.foldl_cons, langStep] using ih
+
+theorem langStep_foldl {ν : Type} (lang : String) (l : List (String × ν)) :
+    l.foldl (langStep lang) none = (l.find? (fun e => e.1 != "" && isPrefix e.1 lang)).map (·.2) := by
+  induction l with
+  | nil => rfl
+  | cons x l ih =>
+    simp only [List.foldl_cons, List.find?_cons]
+    by_cases h : (x.1 != "" && isPrefix x.1 lang) = true
+    · have : langStep lang (none : Option ν) x = some x.2 := by simp only [langStep, h, if_true]
+      rw [this, langStep_foldl_some]
+      simp [h]
+    · have h' : (x.1 != "" && isPrefix x.1 lang) = false := by simpa using h
+      have : langStep lang (none : Option ν) x = none := by simp [langStep, h']
+      rw [this, ih]
+      simp [h']
+
+theorem byLenName_tot {ν : Type} (a b : String × ν) : byLenName a b = true ∨ byLenName b a = true := by
+  simp only [byLenName, Bool.or_eq_true, Bool.and_eq_true, decide_eq_true_eq]
+  rcases Nat.lt_trichotomy a.1.utf8ByteSize b.1.utf8ByteSize with h | h | h
+  · exact Or.inr (Or.inl h)
+  · rcases String.le_total a.1 b.1 with h' | h'
+    · exact Or.inl (Or.inr ⟨h, h'⟩)
+    · exact Or.inr (Or.inr ⟨h.symm, h'⟩)
+  · exact Or.inl (Or.inl h)
+
+theorem byLenName_trans {ν : Type} (a b c : String × ν) :
+    byLenName a b = true → byLenName b c = true → byLenName a c = true := by
+  simp only [byLenName, Bool.or_eq_true, Bool.and_eq_true, decide_eq_true_eq]
+  rintro (h1 | ⟨h1, h1'⟩) (h2 | ⟨h2, h2'⟩)
+  · exact Or.inl (by omega)
+  · exact Or.inl (by omega)
+  · exact Or.inl (by omega)
+  · exact Or.inr ⟨by omega, String.le_trans h1' h2'⟩
+
+theorem byLenName_anti {ν : Type} {l : List (String × ν)} (nd : (l.map (·.1)).Nodup) :
+    ∀ a ∈ l, ∀ b ∈ l, byLenName a b = true → byLenName b a = true → a = b := by
+  intro a ha b hb
+  simp only [byLenName, Bool.or_eq_true, Bool.and_eq_true, decide_eq_true_eq]
+  rintro (h1 | ⟨h1, h1'⟩) (h2 | ⟨h2, h2'⟩)
+  · omega
+  · omega
+  · omega
+  · exact eq_of_nodup_map (·.1) nd a ha b hb (String.le_antisymm h1' h2')
+
 end WR.C15
